@@ -339,3 +339,17 @@ CHECKS["C12"]["harnesses"].append(
     dict(_WS, harness="Harness_C12_multipartDo", reach=["c12.multipartdo", "c12.multipartdo.rejected"], race=True, sched_confirm=True,
          quick={"params": {"ticks": 1, "maxinc": 1}, "sample_models": 10, "sample_every": 7}, thorough={"params": {"ticks": 1, "maxinc": 2}, "workers": 14, "sample_models": 16, "sample_every": 101},
          what="MultipartMixed.Do as a whole (aggregator goroutine with its real ticker ticking at any scheduling point, payload production and every Write/Flush being scheduling points, response loop, Done, final flush): 1 + 0..1 [2] payloads / rejected operation: multipart grammar, exactly-once, order, closing boundary, ticker goroutine ends, no concurrent use of the ResponseWriter (race check)"))
+
+CHECKS["C04"]["harnesses"].append(
+    {"probe": "core", "harness": "Harness_C04_interceptor", "setup": "Setup_C04_interceptor", "reach": ["c04.interceptor", "c04.interceptor.panic"], "workers": 6, "sched": "first",
+     "configs_quick": ["single"], "configs_thorough": ["single", "follow", "funcsyn", "wl1"], "quick": {"sample_models": 16, "sample_every": 5},
+     "what": "the field interceptor (around every field, plain ones included) answering nil / failing / panicking at any one position of 5 operation families: only that position null with ordinary propagation, one error at its path, recover hook once per panic"})
+
+CHECKS["C01"]["harnesses"].append(
+    {"probe": "core", "harness": "Harness_C01_subscription", "setup": "Setup_C01_subscription", "reach": ["c01.sub.compared", "c01.sub.failed"], "workers": 6, "sched": "first",
+     "configs_quick": ["single"], "configs_thorough": ["single", "follow", "funcsyn"], "quick": {"sample_models": 16, "sample_every": 7},
+     "what": "subscriptions: 3 operations x 0..2 events (a nil event, a failing subscribe) x resolver outcomes within the budget: one response per event equal to the reference for that event's value, then nil"})
+CHECKS["C04"]["harnesses"].append(
+    {"probe": "core", "harness": "Harness_C04_subscription", "setup": "Setup_C04_subscription", "reach": ["c01.sub.compared", "c01.sub.failed"], "workers": 6, "sched": "first",
+     "configs_quick": ["single"], "configs_thorough": ["single", "follow"], "quick": {"sample_models": 16, "sample_every": 7},
+     "what": "a fault (error / panic) while subscribing or inside one subscription event: only that position of that event fails, the stream continues, recover hook once per panic"})
